@@ -317,8 +317,14 @@ class Recognizer(IRecognizer):
                 for attr_name, type_, required in class_subobjects(
                         expected_type):
                     cnode = Node(node)
-                    # try exact match first, dashes if that doesn't match
-                    for name in [attr_name, attr_name.replace('_', '-')]:
+                    # try exact match first, dashes if that doesn't match,
+                    # then keys with only some of the underscores dashed
+                    mixed = [
+                            kn.value for kn, _ in node.value
+                            if isinstance(kn, yaml.ScalarNode)
+                            and kn.value.replace('-', '_') == attr_name]
+                    for name in [
+                            attr_name, attr_name.replace('_', '-')] + mixed:
                         if cnode.has_attribute(name):
                             try:
                                 subnode = cnode.get_attribute(name)
